@@ -54,6 +54,7 @@ var Checks = map[string]func(env *Env, rep *Report){
 	"C14": RunC14,
 	"C15": RunC15,
 	"C09": RunC09,
+	"C06": RunC06,
 }
 
 func jsonUnmarshal(b []byte, v interface{}) { _ = json.Unmarshal(b, v) }
